@@ -111,39 +111,49 @@ Fixpoint build_args (args : list arg) (groups : list group) (pos_counter : N) : 
       (a :: t', groups')
   end.
 
-(** [_build_self] (for a command that is not yet built; the [Built] flag is tracked in [s_built]) *)
-Definition build_self (c : cmd) : cmd :=
-  if s_built (c_set c) then c else
+(** [_build_self], one definition per block of the Rust function
+    (for a command that is not yet built; the [Built] flag is tracked in [s_built]) *)
+Definition bs_settings (c : cmd) : cmd :=
   let c := c <| c_set := settings_or (c_set c) (c_gset c) |> in
   (* multicall: not modelled (generators never set it) *)
   let c := if is_set s_args_negate_subs c then c <| c_set := (c_set c) <| s_subs_negate_reqs := true |> |> else c in
   let c := if is_some (c_ext_vp c) then c <| c_set := (c_set c) <| s_allow_external := true |> |> else c in
-  let c := if negb (has_subcommands c) then c <| c_set := (c_set c) <| s_disable_help_sub := true |> |> else c in
-  (* _propagate *)
-  let c := c <| c_subs := map (propagate_subcommand c) (c_subs c) |> in
-  (* _check_help_and_version *)
+  if negb (has_subcommands c) then c <| c_set := (c_set c) <| s_disable_help_sub := true |> |> else c.
+(** [_propagate] *)
+Definition bs_propagate (c : cmd) : cmd := c <| c_subs := map (propagate_subcommand c) (c_subs c) |>.
+(** [_check_help_and_version] *)
+Definition bs_help_version (c : cmd) : cmd :=
   let c := if negb (is_set s_disable_help_flag c) then c <| c_args := c_args c ++ [help_arg] |> else c in
   let c := if negb (is_disable_version_flag_set c) then c <| c_args := c_args c ++ [version_arg] |> else c in
-  let c := if negb (is_set s_disable_help_sub c)
-           then c <| c_subs := c_subs c ++ [fix_help_unset (help_subcommand c)] |> else c in
-  (* _propagate_global_args *)
+  if negb (is_set s_disable_help_sub c)
+  then c <| c_subs := c_subs c ++ [fix_help_unset (help_subcommand c)] |> else c.
+(** [_propagate_global_args] *)
+Definition bs_globals (c : cmd) : cmd :=
   let autogenerated_help := negb (is_set s_disable_help_sub c) in
   let globals := filter a_global (c_args c) in
-  let c := c <| c_subs := map (fun sc =>
-                  if beq (c_name sc) s_help && autogenerated_help then sc
-                  else fold_left (fun sc a => if is_some (find_arg sc (a_id a)) then sc
-                                              else sc <| c_args := c_args sc ++ [a] |>) globals sc)
-                (c_subs c) |> in
-  let '(args, groups) := build_args (c_args c) (c_groups c) 1 in
-  let c := c <| c_args := args |> <| c_groups := groups |> in
-  (* deprecated command-level AllowHyphenValues / AllowNegativeNumbers / TrailingVarArg *)
+  c <| c_subs := map (fun sc =>
+          if beq (c_name sc) s_help && autogenerated_help then sc
+          else fold_left (fun sc a => if is_some (find_arg sc (a_id a)) then sc
+                                      else sc <| c_args := c_args sc ++ [a] |>) globals sc)
+        (c_subs c) |>.
+(** the loop over the args and [self.args._build()] *)
+Definition bs_args (c : cmd) : cmd :=
+  let ba := build_args (c_args c) (c_groups c) 1 in
+  c <| c_args := fst ba |> <| c_groups := snd ba |>.
+(** deprecated command-level AllowHyphenValues / AllowNegativeNumbers / TrailingVarArg *)
+Definition bs_deprecated_arg (c : cmd) (highest : N) (a : arg) : arg :=
+  let a := if is_set s_allow_hyphen c && a_takes_value a then a <| a_hyphen := true |> else a in
+  let a := if is_set s_allow_negnum c && a_takes_value a then a <| a_negnum := true |> else a in
+  if is_set s_tva c && match a_index a with Some n => n =? highest | None => false end
+  then a <| a_tva := true |> else a.
+Definition bs_deprecated (c : cmd) : cmd :=
   let highest := fold_left (fun m a => match a_index a with Some n => N.max m n | None => m end) (c_args c) 0 in
-  let c := c <| c_args := map (fun a =>
-                let a := if is_set s_allow_hyphen c && a_takes_value a then a <| a_hyphen := true |> else a in
-                let a := if is_set s_allow_negnum c && a_takes_value a then a <| a_negnum := true |> else a in
-                if is_set s_tva c && match a_index a with Some n => n =? highest | None => false end
-                then a <| a_tva := true |> else a) (c_args c) |> in
-  c <| c_set := (c_set c) <| s_built := true |> |>.
+  c <| c_args := map (bs_deprecated_arg c highest) (c_args c) |>.
+Definition bs_mark (c : cmd) : cmd := c <| c_set := (c_set c) <| s_built := true |> |>.
+
+Definition build_self (c : cmd) : cmd :=
+  if s_built (c_set c) then c
+  else bs_mark (bs_deprecated (bs_args (bs_globals (bs_help_version (bs_propagate (bs_settings c)))))).
 
 (** [_build_subcommand]: bin/display names, then [_build_self] of the child.
     Returns the child (the parent is unchanged in this functional reading; the in-place
